@@ -405,3 +405,68 @@ func VH_truthy(sz int) {
 	x := hvValue(reach.mask(), sz)
 	verifAssert("truthiness", isTruthy(x) == specTruthy(x))
 }
+
+// VH_nested (C02: "random nested expressions over them"): the result of one operator used as
+// an operand of a second one. The specification is applied to the specified intermediate
+// value, so an intermediate result that is the right number in the wrong host form shows up
+// as soon as the second operator treats it differently.
+func VH_nested(opclass int, second int) {
+	l, r, c := verifNondetFloat(), verifNondetFloat(), verifNondetFloat()
+	ty := verifNondetInt(0, int(token.EOF))
+	verifAssume(opClassOf(token.TokenType(ty)) == opclass)
+	op1 := token.Token{Type: token.TokenType(ty), Lexeme: "op", Line: 1}
+	var op2 token.Token
+	switch second {
+	case 0:
+		op2 = tok(token.PLUS, "+", 1)
+	case 1:
+		op2 = tok(token.LESS, "<", 1)
+	case 2:
+		op2 = tok(token.AND, "&", 1)
+	case 3:
+		op2 = tok(token.EQUAL_EQUAL, "==", 1)
+	default:
+		op2 = tok(token.STAR, "*", 1)
+	}
+	want1 := specBinary(l, op1.Type, r)
+	if want1.cls != clsValue {
+		return
+	}
+	var mid interface{}
+	switch want1.kind {
+	case rkNum:
+		mid = want1.num
+	case rkBool:
+		mid = want1.b
+	default:
+		return
+	}
+	swap := verifNondetBool()
+	var want2 specResult
+	if swap {
+		want2 = specBinary(c, op2.Type, mid)
+	} else {
+		want2 = specBinary(mid, op2.Type, c)
+	}
+	utils.HadRuntimeError = false
+	verifClearEvents()
+	got1 := evaluateBinary(l, op1, r)
+	verifAssert("nested-inner-value-no-diagnostic", !utils.HadRuntimeError)
+	if utils.HadRuntimeError {
+		return
+	}
+	var got2 interface{}
+	if swap {
+		got2 = evaluateBinary(c, op2, got1)
+	} else {
+		got2 = evaluateBinary(got1, op2, c)
+	}
+	checkResult("nested-", got2, want2, hvCountStderr())
+	// and as the operand of the unary operators
+	utils.HadRuntimeError = false
+	verifClearEvents()
+	if want1.kind == rkNum {
+		neg := evaluateUnary(tok(token.MINUS, "-", 1), got1)
+		checkResult("nested-neg-", neg, specUnary(token.MINUS, mid), hvCountStderr())
+	}
+}
